@@ -87,9 +87,10 @@ ConfigRows == {[kind |-> "config", entry |-> e, graph |-> g, fetch |-> f, text |
 \* @charset naming a codec that exists in Python but is no text encoding (as text: byte strings with such a rule are not
 \* "decodable under the encoding that applies"); a fetcher / an imported byte string that names an unknown or non-text encoding
 BadFetchKinds == {"bad-encoding", "enc-hex", "enc-rot13", "enc-css", "bytes-charset-hex", "bytes-charset-rot13", "bytes-charset-css",
-                  "bytes-charset-unknown", "bytes-undecodable"}
+                  "bytes-charset-unknown", "bytes-charset-undefined", "bytes-undecodable", "text-enc-no-such-encoding", "text-enc-undefined",
+                  "text-enc-hex", "enc-undefined"}
 CodecRows == {[kind |-> "config", entry |-> "string", graph |-> "none", fetch |-> "content", text |-> t] :
-                 t \in {"charset-hex", "charset-css", "charset-rot13", "charset-unknown"}}
+                 t \in {"charset-hex", "charset-css", "charset-rot13", "charset-unknown", "charset-undefined"}}
              \cup {[kind |-> "config", entry |-> "string", graph |-> g, fetch |-> f, text |-> "plain"] : g \in {"chain3", "diamond"}, f \in BadFetchKinds}
 \* one declaration per known property name (read from the repository: NAMES_FILE) with a value built to make a backtracking
 \* matcher work hard: validation is part of "parsing returns in bounded time"
